@@ -14,7 +14,7 @@ import re
 from collections.abc import AsyncIterator, Callable
 from contextlib import asynccontextmanager
 from datetime import date, datetime
-from email import message_from_string
+from email import message_from_bytes
 from email.message import EmailMessage
 from enum import Enum, StrEnum
 from typing import (
@@ -853,8 +853,8 @@ class IMAPClientCommand:
         # as a message structure right away (I hope this works in all cases,
         # even with draft messages.)
         #
-        self.message = message_from_string(
-            self._p_string(), policy=email.policy.SMTP
+        self.message = message_from_bytes(
+            self._p_string().encode("latin-1"), policy=email.policy.SMTP
         )
         # XXX Remove this after we are sure our MHMessage -> EmailMessage
         #     conversion.
